@@ -91,7 +91,7 @@ Lemma perturb_north lat lon alt d :
   perturb_lla_lon lat lon alt d 0 0 = lon /\ perturb_lla_alt lat lon alt d 0 0 = alt.
 Proof.
   unfold perturb_lla_lat, perturb_lla_lon, perturb_lla_alt. unf_radii.
-  repeat autounfold with perturb_lla_db. unfold Rdiv. repeat split; ring.
+  repeat autounfold with perturb_lla_db. canon_W. unfold Rdiv. repeat split; ring.
 Qed.
 
 Lemma perturb_east lat lon alt d :
@@ -100,7 +100,7 @@ Lemma perturb_east lat lon alt d :
   perturb_lla_alt lat lon alt 0 d 0 = alt.
 Proof.
   unfold perturb_lla_lat, perturb_lla_lon, perturb_lla_alt. unf_radii.
-  repeat autounfold with perturb_lla_db. unfold Rdiv. repeat split; ring.
+  repeat autounfold with perturb_lla_db. canon_W. unfold Rdiv. repeat split; ring.
 Qed.
 
 Lemma perturb_down lat lon alt d :
@@ -109,17 +109,32 @@ Lemma perturb_down lat lon alt d :
   perturb_lla_alt lat lon alt 0 0 d = alt + d * (-1).
 Proof.
   unfold perturb_lla_lat, perturb_lla_lon, perturb_lla_alt. 
-  repeat autounfold with perturb_lla_db. unfold Rdiv. repeat split; ring.
+  repeat autounfold with perturb_lla_db. canon_W. unfold Rdiv. repeat split; ring.
+Qed.
+
+(* the generated radii against the specification radii, without any restriction on the latitude *)
+Lemma radii_char lat alt :
+  principal_radii_rn lat alt = R_meridian A_ E2_ (lat * (PI / 180)) + alt /\
+  principal_radii_re lat alt = R_transverse A_ E2_ (lat * (PI / 180)) + alt /\
+  principal_radii_rp lat alt =
+    (R_transverse A_ E2_ (lat * (PI / 180)) + alt) * sqrt (1 - sin (lat * (PI / 180)) * sin (lat * (PI / 180))).
+Proof.
+  unfold R_meridian, R_transverse, W2, A_, E2_. unf_radii. canon.
+  set (phi := lat * (PI/180)). with_q phi. repeat split; field; lra.
 Qed.
 
 Lemma rn_neq0 lat alt : -6000000 < alt -> principal_radii_rn lat alt <> 0.
-Proof. intro H. apply Rgt_not_eq. unf_radii. apply rn_pos6. exact H. Qed.
+Proof.
+  intro H. rewrite (proj1 (radii_char lat alt)).
+  pose proof (R_meridian_ge (lat * (PI / 180))). lra.
+Qed.
 
 Lemma rp_neq0 lat alt : -90 < lat < 90 -> -6000000 < alt -> principal_radii_rp lat alt <> 0.
 Proof.
-  intros Hl H. apply Rgt_not_eq. unf_radii.
+  intros Hl H. rewrite (proj2 (proj2 (radii_char lat alt))).
   rewrite (sqrt_1msin2 (lat * (PI/180))) by (apply cos_d2r_nonneg; lra).
-  apply Rmult_lt_0_compat; [apply re_pos6; exact H|apply cos_d2r_pos; exact Hl].
+  pose proof (R_transverse_ge (lat * (PI / 180))). pose proof (cos_d2r_pos lat Hl).
+  apply Rgt_not_eq. apply Rmult_lt_0_compat; lra.
 Qed.
 
 
@@ -246,7 +261,7 @@ Lemma perturb_dir lat lon alt d0 d1 d2 :
   perturb_lla_alt lat lon alt d0 d1 d2 = alt - d2.
 Proof.
   unfold perturb_lla_lat, perturb_lla_lon, perturb_lla_alt. unf_radii.
-  repeat autounfold with perturb_lla_db. unfold Rdiv. repeat split; ring.
+  repeat autounfold with perturb_lla_db. canon_W. unfold Rdiv. repeat split; ring.
 Qed.
 
 (* the generated curvature matrix in terms of the generated principal radii *)
@@ -462,6 +477,17 @@ Proof.
   lra.
 Qed.
 
+(* the generated lla_to_ecef in one fixed spelling *)
+Lemma ecef_char lat lon alt :
+  let phi := lat * (PI / 180) in let lam := lon * (PI / 180) in
+  let N := 6378137 / sqrt (1 - 66943799901413 / 10000000000000000 * (sin phi * sin phi)) in
+  lla_to_ecef_r0 lat lon alt = (N + alt) * cos phi * cos lam /\
+  lla_to_ecef_r1 lat lon alt = (N + alt) * cos phi * sin lam /\
+  lla_to_ecef_r2 lat lon alt = (9933056200098587 / 10000000000000000 * N + alt) * sin phi.
+Proof.
+  cbv zeta. unf_ecef. canon. set (phi := lat * (PI/180)). with_q phi. repeat split; field; lra.
+Qed.
+
 (* the ECEF image of a geodetic point in cylindrical form, as ecef_to_lla sees it *)
 Lemma ecef_cylindrical lat lon alt :
   -90 < lat < 90 -> -6000000 < alt ->
@@ -486,6 +512,8 @@ Proof.
   rewrite Hss.
   set (phi := lat * (PI / 180)) in *. set (lam := lon * (PI / 180)).
   assert (Hsg0 : 0 <= sin (Rabs lat * (PI / 180))) by (rewrite Hs; apply Rabs_pos).
+  destruct (ecef_char lat lon alt) as [X0 [X1 X2]]. cbv zeta in X0, X1, X2. fold phi lam in X0, X1, X2.
+  rewrite X0, X1, X2. clear X0 X1 X2.
   split; [|split].
   - split; [|split].
     + pose proof (sc1 phi). lra.
@@ -495,14 +523,13 @@ Proof.
       apply sqrt_square. exact Hsg0.
   - assert (Hk : 0 < (6378137 / sqrt (1 - 66943799901413 / 10000000000000000 * (sin phi * sin phi)) + alt) * cos phi)
       by (apply Rmult_lt_0_compat; assumption).
-    split; [exact Hk|]. unf_ecef. fold phi lam. split; [reflexivity|]. split; [reflexivity|].
+    split; [exact Hk|]. split; [reflexivity|]. split; [reflexivity|].
     unfold ecef_to_lla__0.
     set (k := (6378137 / sqrt (1 - 66943799901413 / 10000000000000000 * (sin phi * sin phi)) + alt) * cos phi) in *.
     replace (k * cos lam * (k * cos lam) + k * sin lam * (k * sin lam)) with (k * k)
       by (pose proof (sc1 lam); nra).
     apply sqrt_square. lra.
-  - unf_ecef. fold phi.
-    set (K := 9933056200098587 / 10000000000000000 *
+  - set (K := 9933056200098587 / 10000000000000000 *
         (6378137 / sqrt (1 - 66943799901413 / 10000000000000000 * (sin phi * sin phi))) + alt) in *.
     split.
     + rewrite Rabs_mult, (Rabs_right K) by lra. rewrite Hs. reflexivity.
@@ -608,6 +635,17 @@ Proof.
     unfold ecef_to_lla_alt__p1, A_. exact H23.
 Qed.
 
+Lemma ecef_at_equator lon alt :
+  lla_to_ecef_r0 0 lon alt = (6378137 + alt) * cos (lon * (PI / 180)) /\
+  lla_to_ecef_r1 0 lon alt = (6378137 + alt) * sin (lon * (PI / 180)) /\
+  lla_to_ecef_r2 0 lon alt = 0.
+Proof.
+  destruct (ecef_char 0 lon alt) as [X0 [X1 X2]]. cbv zeta in X0, X1, X2. rewrite X0, X1, X2.
+  replace (0 * (PI / 180)) with 0 by ring. rewrite sin_0, cos_0.
+  replace (1 - 66943799901413 / 10000000000000000 * (0 * 0)) with 1 by ring. rewrite sqrt_1.
+  repeat split; field.
+Qed.
+
 Lemma equator_round_trip lon alt :
   -180 < lon <= 180 -> - A_ < alt ->
   let x := lla_to_ecef_r0 0 lon alt in let y := lla_to_ecef_r1 0 lon alt in
@@ -616,15 +654,7 @@ Lemma equator_round_trip lon alt :
 Proof.
   intros Hlon Halt. unfold A_ in Halt. cbv zeta.
   pose proof PI_RGT_0 as Hpi.
-  assert (Hq : sqrt (1 - 66943799901413 / 10000000000000000 * (sin (0 * (PI / 180)) * sin (0 * (PI / 180)))) = 1).
-  { replace (0 * (PI / 180)) with 0 by ring. rewrite sin_0.
-    replace (1 - 66943799901413 / 10000000000000000 * (0 * 0)) with 1 by ring. apply sqrt_1. }
-  assert (Hz : lla_to_ecef_r2 0 lon alt = 0).
-  { unf_ecef. replace (0 * (PI / 180)) with 0 by ring. rewrite sin_0. ring. }
-  assert (Hx : lla_to_ecef_r0 0 lon alt = (6378137 + alt) * cos (lon * (PI / 180))).
-  { unf_ecef. rewrite Hq. replace (0 * (PI / 180)) with 0 by ring. rewrite cos_0. field. }
-  assert (Hy : lla_to_ecef_r1 0 lon alt = (6378137 + alt) * sin (lon * (PI / 180))).
-  { unf_ecef. rewrite Hq. replace (0 * (PI / 180)) with 0 by ring. rewrite cos_0. field. }
+  destruct (ecef_at_equator lon alt) as [Hx [Hy Hz]].
   rewrite Hz, Hx, Hy.
   set (k := 6378137 + alt). set (lam := lon * (PI / 180)).
   assert (Hk : 0 < k) by (unfold k; lra).
@@ -645,15 +675,7 @@ Lemma olson_guess_exact_on_equator lon alt :
   (~ ecef_to_lla__4 x y z > 3 / 10 -> ecef_to_lla__24 x y z = cos (0 * d2r)).
 Proof.
   intros Hlon Halt. unfold A_ in Halt. cbv zeta.
-  assert (Hq : sqrt (1 - 66943799901413 / 10000000000000000 * (sin (0 * (PI / 180)) * sin (0 * (PI / 180)))) = 1).
-  { replace (0 * (PI / 180)) with 0 by ring. rewrite sin_0.
-    replace (1 - 66943799901413 / 10000000000000000 * (0 * 0)) with 1 by ring. apply sqrt_1. }
-  assert (Hz : lla_to_ecef_r2 0 lon alt = 0).
-  { unf_ecef. replace (0 * (PI / 180)) with 0 by ring. rewrite sin_0. ring. }
-  assert (Hx : lla_to_ecef_r0 0 lon alt = (6378137 + alt) * cos (lon * (PI / 180))).
-  { unf_ecef. rewrite Hq. replace (0 * (PI / 180)) with 0 by ring. rewrite cos_0. field. }
-  assert (Hy : lla_to_ecef_r1 0 lon alt = (6378137 + alt) * sin (lon * (PI / 180))).
-  { unf_ecef. rewrite Hq. replace (0 * (PI / 180)) with 0 by ring. rewrite cos_0. field. }
+  destruct (ecef_at_equator lon alt) as [Hx [Hy Hz]].
   rewrite Hz, Hx, Hy.
   set (k := 6378137 + alt). set (lam := lon * (PI / 180)).
   assert (Hk : 0 < k) by (unfold k; lra).
@@ -719,6 +741,24 @@ Proof.
     rewrite <- Hb. destruct (Rlt_dec z 0); [unfold ecef_to_lla_alt__p2|unfold ecef_to_lla_alt__p3]; exact H36.
 Qed.
 
+Lemma ecef_at_poles lon alt :
+  (lla_to_ecef_r0 90 lon alt = 0 /\ lla_to_ecef_r1 90 lon alt = 0 /\
+   lla_to_ecef_r2 90 lon alt = sqrt (b2 A_ E2_) + alt) /\
+  (lla_to_ecef_r0 (-90) lon alt = 0 /\ lla_to_ecef_r1 (-90) lon alt = 0 /\
+   lla_to_ecef_r2 (-90) lon alt = - (sqrt (b2 A_ E2_) + alt)).
+Proof.
+  pose proof PI_RGT_0 as Hpi.
+  assert (A1 : 90 * (PI / 180) = PI / 2) by field.
+  assert (A2 : -90 * (PI / 180) = - (PI / 2)) by field.
+  pose proof semi_minor_axis as Hb.
+  split.
+  - destruct (ecef_char 90 lon alt) as [X0 [X1 X2]]. cbv zeta in X0, X1, X2. rewrite X0, X1, X2.
+    rewrite A1, cos_PI2, sin_PI2, Hb. repeat split; ring.
+  - destruct (ecef_char (-90) lon alt) as [X0 [X1 X2]]. cbv zeta in X0, X1, X2. rewrite X0, X1, X2.
+    rewrite A2, cos_neg, sin_neg, cos_PI2, sin_PI2.
+    replace (- (1) * - (1)) with (1 * 1) by ring. rewrite Hb. repeat split; ring.
+Qed.
+
 Lemma pole_round_trip lon alt :
   -6000000 < alt ->
   (let x := lla_to_ecef_r0 90 lon alt in let y := lla_to_ecef_r1 90 lon alt in
@@ -728,26 +768,16 @@ Lemma pole_round_trip lon alt :
    let z := lla_to_ecef_r2 (-90) lon alt in
    ecef_to_lla_lat x y z = -90 /\ ecef_to_lla_alt x y z = alt).
 Proof.
-  intro Halt. cbv zeta. pose proof PI_RGT_0 as Hpi.
-  assert (A1 : 90 * (PI / 180) = PI / 2) by field.
-  assert (A2 : -90 * (PI / 180) = - (PI / 2)) by field.
+  intro Halt. cbv zeta.
   pose proof semi_minor_axis as Hb.
   assert (Hbpos : 0 < sqrt (b2 A_ E2_) + alt).
   { rewrite <- Hb. pose proof (rf_pos6 (PI / 2) alt Halt) as H. rewrite sin_PI2 in H. exact H. }
+  destruct (ecef_at_poles lon alt) as [[Hx [Hy Hz]] [Hx' [Hy' Hz']]].
   split.
-  - assert (Hx : lla_to_ecef_r0 90 lon alt = 0) by (unf_ecef; rewrite A1, cos_PI2; ring).
-    assert (Hy : lla_to_ecef_r1 90 lon alt = 0) by (unf_ecef; rewrite A1, cos_PI2; ring).
-    assert (Hz : lla_to_ecef_r2 90 lon alt = sqrt (b2 A_ E2_) + alt)
-      by (unf_ecef; rewrite A1, sin_PI2, <- Hb; ring).
-    rewrite Hx, Hy, Hz.
+  - rewrite Hx, Hy, Hz.
     destruct (ecef_to_lla_polar_axis (sqrt (b2 A_ E2_) + alt)) as [E1 [_ E3]]; [lra|].
     rewrite E1, E3. destruct (Rlt_dec _ 0) as [H|H]; [lra|]. rewrite Rabs_right by lra. split; [reflexivity|ring].
-  - assert (Hx : lla_to_ecef_r0 (-90) lon alt = 0) by (unf_ecef; rewrite A2, cos_neg, cos_PI2; ring).
-    assert (Hy : lla_to_ecef_r1 (-90) lon alt = 0) by (unf_ecef; rewrite A2, cos_neg, cos_PI2; ring).
-    assert (Hz : lla_to_ecef_r2 (-90) lon alt = - (sqrt (b2 A_ E2_) + alt)).
-    { unf_ecef. rewrite A2, sin_neg, sin_PI2, <- Hb.
-      replace (- (1) * - (1)) with (1 * 1) by ring. ring. }
-    rewrite Hx, Hy, Hz.
+  - rewrite Hx', Hy', Hz'.
     destruct (ecef_to_lla_polar_axis (- (sqrt (b2 A_ E2_) + alt))) as [E1 [_ E3]]; [lra|].
     rewrite E1, E3. destruct (Rlt_dec _ 0) as [H|H]; [|lra]. rewrite Rabs_left by lra. split; [reflexivity|ring].
 Qed.
